@@ -470,6 +470,9 @@ def find_fn(src, impl_pat, name):
     if scope[j] == "<":                               # generic parameters: skip the balanced <...>
         depth = 0
         while True:
+            if scope[j] == ">" and scope[j - 1] == "-":   # the arrow of `Fn(usize) -> usize`
+                j += 1
+                continue
             depth += {"<": 1, ">": -1}.get(scope[j], 0)
             j += 1
             if depth == 0:
@@ -776,6 +779,10 @@ class Emitter:
         else:
             a, ta = self.expr(e[2], pre, hint)
             b, tb = self.expr(e[3], pre, U if op in ("<<", ">>") else ta)
+        if ta == W and tb == U and b.isdigit() and op not in ("<<", ">>"):
+            b, tb = "(%s : Word)" % b, W                              # an associated constant of type u64
+        if tb == W and ta == U and a.isdigit() and op not in ("<<", ">>"):
+            a, ta = "(%s : Word)" % a, W
         if cmp:
             if ta != tb:
                 raise Unsupported("comparison between %r and %r" % (ta, tb))
@@ -941,6 +948,8 @@ class Emitter:
                 self.assigned(s[2], acc)
             elif s[0] == "let":
                 pass
+        if block[2] is not None:
+            self.assigned_expr(block[2], acc)
         return acc
 
     def assigned_expr(self, e, acc):
@@ -1250,6 +1259,9 @@ class Emitter:
         else:
             out.append(ind + "| .ret r => return r")
         out.append(ind + "| .next _ => fault .fuel")
+        if st[1] == ("bool", True) and not self.contains_break(st[2]):
+            out.append(ind + "| .brk _ => fault .fuel")             # `loop` without `break`: left only through `return`
+            return
         out.append(ind + "| .brk %s => do" % pat)
         n0 = len(out)
         self.stmts(rest[0], rest[1], out, ind + "  ", is_fn_body)
@@ -1261,6 +1273,20 @@ class Emitter:
         not part of the state that flows out of it)"""
         known = {v[0] for v in self.env.values()}
         return {n for n in names if n in known or n.startswith("self_")}
+
+    def contains_break(self, block):
+        def in_expr(e):
+            if e[0] == "if":
+                return self.contains_break(e[2]) or (e[3] is not None and self.contains_break(e[3]))
+            if e[0] == "blockexpr":
+                return self.contains_break(e[1])
+            return False
+        for s in block[1]:
+            if s[0] == "break":
+                return True
+            if s[0] == "expr" and in_expr(s[1]):
+                return True
+        return block[2] is not None and in_expr(block[2])
 
     def contains_return(self, block):
         def in_expr(e):
